@@ -60,6 +60,12 @@ theorem pkPhase_counts {cfg : Cfg} {st st' : St} {r : Req} {evs : List Ev}
       · exact ⟨rfl, rfl, by simpa using hxn⟩
       · exact ⟨rfl, rfl, by simp [nolog, hxn]⟩
 
+theorem kgEv_nolog {st : St} {r : Req} {x : List Ev} (h : x.all (kgEv st r) = true) : x.all nolog = true := by
+  rw [List.all_eq_true] at h ⊢
+  intro e he
+  have := h e he
+  cases e <;> simp [kgEv, auxEv, nolog] at this ⊢
+
 theorem methodPhase_counts {cfg : Cfg} {st st' : St} {r : Req} {evs : List Ev}
     (hph : methodPhase cfg st r = .again st' evs ∨ ∃ p e, methodPhase cfg st r = .res st' evs p e) :
     counts st' = { counts st with noneCount := if r.method = "none" then st.noneCount + 1 else st.noneCount } ∧
@@ -80,13 +86,20 @@ theorem methodPhase_counts {cfg : Cfg} {st st' : St} {r : Req} {evs : List Ev}
     · unfold pwPhase at hph
       (repeat' split at hph) <;> simp at hph <;> obtain ⟨rfl, rfl⟩ := hph <;> simp [counts, nolog]
     · split at hph
-      · unfold kbdPhase at hph
-        (repeat' split at hph) <;> simp at hph <;> obtain ⟨rfl, rfl⟩ := hph <;> simp [counts, nolog]
+      · rename_i hm
+        simp at hm
+        obtain ⟨rfl, hx⟩ := kg_result (Or.inl ⟨hm, rfl⟩) hph
+        exact ⟨rfl, rfl, kgEv_nolog hx⟩
       · split at hph
         · exact pkPhase_counts hph
-        · simp at hph
-          obtain ⟨rfl, rfl⟩ := hph
-          simp [counts]
+        · split at hph
+          · rename_i hm
+            simp at hm
+            obtain ⟨rfl, hx⟩ := kg_result (Or.inr ⟨hm, rfl⟩) hph
+            exact ⟨rfl, rfl, kgEv_nolog hx⟩
+          · simp at hph
+            obtain ⟨rfl, rfl⟩ := hph
+            simp [counts]
 
 theorem bump_eq (st : St) (r : Req) :
     bumpFailures st r =
@@ -196,7 +209,7 @@ theorem steps_counts {cfg : Cfg} {st st' : St} {rs : List Req} {evs : List Ev}
     (st.partialRet = true → st'.partialRet = true ∧ st'.user = st.user ∧ ∀ r ∈ rs, r.user = st.user) := by
   induction h with
   | nil st => simp
-  | @cons st st1 st2 r rs e1 e2 ht hs _ ih =>
+  | @cons st st1 st2 r rs e1 e2 ht hs _ _ ih =>
     obtain ⟨a, b, c, d⟩ := step_counts hs
     obtain ⟨i1, i2, i3⟩ := ih
     refine ⟨?_, ?_, ?_⟩
